@@ -50,6 +50,7 @@ type c14Srv struct {
 	mu       sync.Mutex
 	lastReq  *dns.Msg
 	nclient  int
+	stuck    int // packets the server never finished with (each costs a watchdog period)
 }
 
 func newC14Srv(w *core.W, kind string, seed uint64) *c14Srv {
@@ -179,11 +180,15 @@ func (s *c14Srv) deliver(pkt []byte) (handled, invalid int, replies [][]byte, ok
 
 // c14Judge applies the admission rules to one observed packet.
 func c14Judge(w *core.W, s *c14Srv, pkt []byte, wellFormed *dns.Msg, kind string) {
+	if s.stuck >= 3 {
+		return // the remaining packets would only repeat the finding, at watchdog cost each
+	}
 	handled, invalid, replies, ok := s.deliver(pkt)
 	w.Eval(1)
 	wit := map[string]any{"packet": hx(pkt), "transport": s.kind, "kind": kind}
 	key := func(k string) string { return "C14/" + k + "/" + s.kind }
 	if !ok {
+		s.stuck++
 		w.Violation(key("packet-not-dealt-with"), "the server did not finish processing the packet within the watchdog (no serveDNS exit, no invalid callback)", wit)
 		return
 	}
